@@ -10,6 +10,8 @@ use crate::runner::{sample_one, Outcome, Prop, Tier};
 use crate::util::{doc_ip, expect_equal};
 use crate::wire::run_scripted;
 
+static FIDELITY: std::sync::atomic::AtomicU64 = std::sync::atomic::AtomicU64::new(0);
+
 pub struct C06;
 
 fn base_state(i: u64) -> U2State {
@@ -23,6 +25,11 @@ impl Prop for C06 {
     type Case = U2State;
 
     fn id(&self) -> &'static str { "C06" }
+
+    fn extra_evidence(&self) -> serde_json::Value {
+        serde_json::json!({"traces_validated_against_impl": FIDELITY.load(std::sync::atomic::Ordering::Relaxed),
+                           "traces_validated_note": "a sample of the cases is replayed over real loopback sockets with the same reference server; the result must equal the scripted-transport result"})
+    }
 
     fn rule(&self) -> String {
         "random Unreal 2 server states (server info, 0-24 rules with repeated keys and Mutator keys in any case, 0-64 players with ping 0 = bot, \
@@ -133,6 +140,12 @@ impl Prop for C06 {
         let server = U2Server::from_state(st);
         let run = run_scripted(Box::new(server), || unreal2::query(&addr, &gather, None));
         o.failure = expect_equal("C06", "unreal2::query", &run, &st.expected(), &[".rules", ".mutators"]);
+        // (the client waits one read timeout for the end of the rule list: a small sample, short timeouts)
+        if o.failure.is_none() && crate::runner::digest(format!("{:?}", st.name).as_bytes()) % 400 == 0 {
+            let st2 = st.clone();
+            let make = move || Box::new(U2Server::from_state(&st2)) as Box<dyn crate::wire::Responder>;
+            crate::realnet::fidelity("C06", gamedig::verif_hook::Proto::Udp, make, &run, 250, |a, t| unreal2::query(&a, &gather, t), &FIDELITY);
+        }
         o
     }
 }
